@@ -614,6 +614,50 @@ theorem Pos.located {buf : List Byte} {l : Nat} {p : List Byte} (h : Pos buf l p
     conv => lhs; rw [hb]
     simp [isBreak]
 
+/-- the same, naming the offset: it is the length of the part of the buffer before the cursor -/
+theorem Pos.located_at {buf : List Byte} {l : Nat} {p : List Byte} (h : Pos buf l p) :
+    ∃ pre, buf = pre ++ p ∧ 0 ∉ pre ∧ 0 ∈ p ∧ pre.length ≤ (cstr buf).length ∧
+      l = lineOf (cstr buf) pre.length ∧ column buf p = colOf (cstr buf) pre.length := by
+  obtain ⟨q, hb, hp, hq, hl, _⟩ := h
+  have hq' : 0 ∉ q.reverse := by simpa using hq
+  have hc : cstr buf = q.reverse ++ cstr p := by rw [hb]; exact cstr_append_nf _ _ hq'
+  refine ⟨q.reverse, hb, hq', hp, ?_, ?_, ?_⟩
+  · rw [hc]; simp
+  · rw [hc, hl]; simp [lineOf]
+  · rw [hc]
+    have : buf.length - p.length = q.reverse.length := by rw [hb]; simp
+    unfold column colOf
+    rw [this]
+    conv => lhs; rw [hb]
+    simp [isBreak]
+
+theorem parseRaw_post (buf : List Byte) (h : 0 ∈ buf) : Post buf (fun _ => True) (parseRaw buf) := by
+  unfold parseRaw
+  refine Post_bind (readToken_post buf 1 buf (Pos.init buf h)) ?_
+  intro st ⟨hp, hl, hlt⟩
+  have hm : 2 * meas st + 1 ≤ parseFuel buf := by
+    unfold meas parseFuel
+    by_cases h0 : st.tok = 0
+    · simp only [h0, if_true]; omega
+    · simp only [h0, if_false]; have := hlt h0; omega
+  refine Post_bind ((parser_post buf (parseFuel buf)).1 st hp hm) ?_
+  intro x _; trivial
+
+theorem parse_eq_raw (buf : List Byte) :
+    parse buf = match parseRaw buf with
+      | .ok v => .ok v
+      | .fail l p => .err l (column buf p)
+      | .oob => .oob
+      | .nofuel => .nofuel := by
+  unfold parse parseRaw
+  cases readToken 1 buf with
+  | ok st =>
+    simp only [Res.bind]
+    cases parseValue (parseFuel buf) st <;> rfl
+  | fail l p => rfl
+  | oob => rfl
+  | nofuel => rfl
+
 /-- everything C15 says about the safety of `parse`, in one statement -/
 theorem parse_safe (buf : List Byte) (h : 0 ∈ buf) :
     match parse buf with
